@@ -1123,6 +1123,7 @@ impl DB {
         let mut memtable: Arc<Box<dyn MemTable>> = Arc::new(Box::new(SkipListMemTable::new()));
         let mut last_sequence_number: u64 = 0;
         let mut use_new_manifest = false;
+        let mut found_replayed_record = false;
         let db_state = self.generate_portable_state();
 
         let (mut wal_record, mut is_eof) = wal_reader.read_record()?;
@@ -1136,6 +1137,28 @@ impl DB {
             }
 
             let transaction = Batch::try_from(wal_record.as_slice())?;
+            if !transaction.is_empty()
+                && transaction.get_starting_seq_number().unwrap() <= last_sequence_number
+            {
+                /*
+                Sequence numbers only grow within a log. A record that starts at or below the last
+                number already replayed is a record that appears twice (e.g. a repeated write of
+                the same sector): its checksum is fine but replaying it would put entries with
+                the same key and sequence number into the memtable a second time. Skip it like a
+                damaged record and do not append to this log any more.
+                */
+                log::error!(
+                    "During recovery, found a log record in {wal_path:?} that starts at sequence \
+                    number {starting_seq} although {last_sequence_number} was already replayed. \
+                    Skipping the record.",
+                    wal_path = &wal_path,
+                    starting_seq = transaction.get_starting_seq_number().unwrap()
+                );
+                found_replayed_record = true;
+                (wal_record, is_eof) = wal_reader.read_record()?;
+                continue;
+            }
+
             DB::apply_batch_to_memtable(&**memtable, &transaction);
             let last_transaction_seq_num =
                 transaction.get_starting_seq_number().unwrap() + (transaction.len() as u64) - 1;
@@ -1167,6 +1190,7 @@ impl DB {
             && is_last_wal
             && num_compactions == 0
             && is_wal_tail_clean
+            && !found_replayed_record
         {
             log::info!("Reusing WAL file: {wal_path:?}.", wal_path = &wal_path);
             drop(wal_reader);
